@@ -210,6 +210,16 @@ class Taint:
                         changed = True
         return tainted
 
+    def _outer_tainted(self, f, tainted):
+        """tainted names of f together with those of the functions it is nested in
+        (a closure reads the tables of its enclosing function)"""
+        out = set(tainted)
+        g = getattr(f, "parent", None)
+        while g is not None:
+            out |= self.local_taint(g) if hasattr(self, "local_taint") else set()
+            g = getattr(g, "parent", None)
+        return out
+
     def _target_names(self, t):
         out = set()
         if isinstance(t, ast.Name):
@@ -226,6 +236,13 @@ class Taint:
     def _is_set_name(self, t, f, tainted):
         return False
 
+    @staticmethod
+    def _counts(value, table):
+        """len(<table>) (or the table's size under another spelling) in a value stored
+        into the table: the stored number is the position at which the key came"""
+        return any(isinstance(c, ast.Call) and dotted(c.func) == "len" and c.args
+                   and dotted(c.args[0]) == table for c in ast.walk(value))
+
     def _order_built(self, stmt, f, tainted):
         """Names of sequences / dicts that receive elements in iteration order
         inside a tainted loop body."""
@@ -239,6 +256,8 @@ class Taint:
                 d = dotted(x.func.value)
                 if d:
                     out.add(d)
+                if d and x.func.attr == "setdefault" and len(x.args) == 2 and self._counts(x.args[1], d):
+                    out.add(d + "@rank")     # values number the keys in the order they came
                 # table[key].append(v) / table.setdefault(key, []).append(v): the *values* of
                 # the table are sequences built in iteration order
                 inner = x.func.value
@@ -257,6 +276,8 @@ class Taint:
                         d = dotted(t.value)
                         if d:
                             out.add(d)       # dict filled in tainted order
+                        if d and self._counts(x.value, d):
+                            out.add(d + "@rank")
             if isinstance(x, ast.AugAssign) and isinstance(x.op, ast.Add):
                 d = dotted(x.target)
                 if d:
@@ -329,6 +350,18 @@ class Taint:
                 if fn.id in ("sorted", "natsorted") and not key_is_total(e, getattr(f, "node", None)):
                     # a key with ties leaves tied items in the order they came in
                     return any(self.is_tainted(a, f, tainted) for a in e.args)
+                if fn.id in ("sorted", "natsorted"):
+                    # a key that ranks by a table numbered in iteration order of an unordered
+                    # collection: total, but a different total order from run to run
+                    for kw in e.keywords:
+                        if kw.arg == "key":
+                            kv = kw.value
+                            if isinstance(kv, ast.Name) and kv.id in getattr(f, "nested", {}):
+                                kv = f.nested[kv.id].node
+                            for n_ in ast.walk(kv):
+                                d_ = dotted(n_) if isinstance(n_, (ast.Name, ast.Attribute)) else None
+                                if d_ and d_ + "@rank" in self._outer_tainted(f, tainted):
+                                    return True
                 if fn.id in CLEAN_FUNCS:
                     return False
                 if fn.id in SEQ_FUNCS:
